@@ -108,10 +108,25 @@ class World:
             elif op == "Load":
                 self.cfg.load_tree(cfgadapter.value_to_py(cinco, ev["tree"]))
             elif op == "Assign":
-                target = self.cfg
-                for k in codec.seq(ev["p"]):
-                    target = getattr(target, k)
-                setattr(target, ev["k"], cfgadapter.value_to_py(cinco, ev["v"]))
+                # the three public ways of assigning explicitly: attribute of the owning configuration, dotted item
+                # of the root, command-line override of the root (which skips None by contract)
+                value = cfgadapter.value_to_py(cinco, ev["v"])
+                dotted = ".".join(list(codec.seq(ev["p"])) + [ev["k"]])
+                self.assigns = getattr(self, "assigns", 0) + 1
+                import zlib
+
+                route = (zlib.crc32(repr((dotted, ev["v"])).encode()) + self.assigns) % 3
+                if route == 1:
+                    self.cfg[dotted] = value
+                elif route == 2 and value is not None:
+                    import argparse
+
+                    cinco.cmdline_args_override(self.cfg, argparse.Namespace(**{dotted: value, "unrelated": None}), ignore="unrelated")
+                else:
+                    target = self.cfg
+                    for k in codec.seq(ev["p"]):
+                        target = getattr(target, k)
+                    setattr(target, ev["k"], value)
             elif op == "Reset":
                 cinco.reset_value(self.cfg, ".".join(list(codec.seq(ev["p"])) + [ev["k"]]))
             else:
